@@ -26,6 +26,9 @@ TOL_EOS = 1e-4
 TOL_PHI = 1e-6
 LNPHI_LO, LNPHI_HI = -4.6, 4.44
 FINDING_KEY = "fixedV-numerical-negative-PR-pressure"
+FINDING4_KEY = "PR_P-returns-stored-component-pressure"
+MINIMAL_FINDING4 = ("SOLUTION 1\n temp 25\nGAS_PHASE 1\n -fixed_volume\n -volume 1\n CO2(g) 1.0\n N2(g) 0.5\nEND\n"
+                    "# wateq4f.dat (ideal gases): GAS_P=1.03771, partial pressures 0.54435 / 0.49337 (= 10^SI = x*P) but PR_P = 1.0 / 0.5")
 FINDING2_KEY = "fixedV-vm-iteration-accepted-early"
 MINIMAL_FINDING2 = ("SOLUTION 1\n temp 10\n -water 100\nGAS_PHASE 1\n -fixed_volume\n -volume 0.01\n -temperature 10\n H2O(g) 1.0\nEND\n"
                     "# phreeqc.dat: run completes; GAS_P=0.0122698, GAS_VM=1890.22, 10^SI/(PR_PHI*PR_P)=1.0016176 = EOS-consistent V_m / GAS_VM")
@@ -588,7 +591,9 @@ def judge(ctx, case, res, pre):
         if kind == "pp":
             cnt["pp_rows"] = cnt.get("pp_rows", 0) + 1
             for i, g in enumerate(gases):
-                present = row.get(f"eq{i}", 0) > 0
+                if cx["si_target"][i] is None:
+                    continue
+                present = (row.get(f"eq{i}") or 0) > 0
                 ptarget = 10 ** min(cx["si_target"][i], 3.5)
                 if not present:
                     cnt["pp_absent"] = cnt.get("pp_absent", 0) + 1
@@ -637,9 +642,18 @@ def judge(ctx, case, res, pre):
                 continue
             chk("ideal_PV_nRT", rel(p * vm, R_ATM * tk), TOL_EOS, f"ideal gas: P*Vm={p * vm} but RT={R_ATM * tk}")
             chk("ideal_sum_partial", rel(sum(peq), p), TOL_EOS, f"sum of partial pressures {sum(peq)} differs from P={p}")
+            stored = cx.get("p_init")
             for i, g in enumerate(gases):
                 if x[i] > 0:
                     chk("ideal_share", abs(peq[i] - x[i] * p) / p, TOL_EOS, f"{g}: partial pressure {peq[i]} is not the share {x[i]} of {p}")
+                dev = abs(pp[i] - x[i] * p) / p
+                if dev > TOL_EOS and stored is not None and pp[i] == stored[i]:
+                    # known departure: PR_P of an ideal phase is the stored input pressure of the component
+                    cnt["PR_P_is_stored_input_pressure"] = cnt.get("PR_P_is_stored_input_pressure", 0) + 1
+                    checks.append(("FINDING:" + FINDING4_KEY, dev, TOL_EOS,
+                                   f"ideal gas phase: PR_P(\"{g}\")={pp[i]} is the input partial pressure, the state has x*P={x[i] * p} (GAS_P={p})"))
+                elif stored is not None:
+                    chk("ideal_PR_P_share", dev, TOL_EOS, f"{g}: PR_P={pp[i]} is not the share {x[i]} of {p}")
             continue
         pairs = list(zip(gases, n))
         out = pm(ctx, "\n".join(pre + [eos_line(p, tk, vm, pairs)]) + "\n")
@@ -675,7 +689,14 @@ def judge(ctx, case, res, pre):
         elif v_internal is None:
             cnt["eos_judged"] = cnt.get("eos_judged", 0) + 1
             chk("PR_EOS", rel(e["p_of_vm"], p), TOL_EOS, f"P={p} but Peng-Robinson at V_m={vm}, T={tk}, x={x} gives {e['p_of_vm']}")
-        chk("sum_partial", rel(sum(pp), p), TOL_EOS, f"partial pressures sum to {sum(pp)}, total {p}")
+        gone = [i for i in range(len(gases)) if n[i] == 0 and si[i] <= -99]
+        if any(pp[i] != 0 for i in gone):
+            # known departure: PR_P of a listed component with zero moles is the stored pressure of the GAS_PHASE entity
+            cnt["PR_P_of_absent_component"] = cnt.get("PR_P_of_absent_component", 0) + 1
+            checks.append(("FINDING:" + FINDING4_KEY, max(pp[i] for i in gone) / p, TOL_EOS,
+                           f"PR_P of components with zero moles and SI -99.99: {[(gases[i], pp[i]) for i in gone]} (GAS_P={p})"))
+        chk("sum_partial", rel(sum(pp[i] for i in range(len(gases)) if i not in gone), p), TOL_EOS,
+            f"partial pressures sum to {sum(pp[i] for i in range(len(gases)) if i not in gone)}, total {p}")
         if gtype != "fixedP" and not (e["p_of_vm"] > 0):
             # known departure (reported through ctx.finding): on the numerical fixed-volume path the engine's calc_PR() (gases.cpp)
             # doubles V_m while the PR pressure is <= 0 and keeps the doubled value for the mole numbers; the converged state then
@@ -724,6 +745,7 @@ def real_runs(ctx, exe, ok):
     for db in sorted({c["db"] for c in cases}):
         consts[db] = db_consts(exe, db)
     map_broken = None
+    routed = set()
     with cf.ThreadPoolExecutor(max_workers=vlib.NCPU) as ex:
         results = list(ex.map(lambda c: run_real(exe, c), cases))
     stats = {"completed": 0, "error_runs": 0, "crashed": 0}
@@ -760,9 +782,12 @@ def real_runs(ctx, exe, ok):
         for name, val, tol, msg in checks:
             if name.startswith("FINDING:"):
                 key = name.split(":", 1)[1]
-                ctx.finding(key, msg, {"kind": "real", "case": dict(case),
-                                       "minimal_replay": MINIMAL_FINDING if key == FINDING_KEY else MINIMAL_FINDING2})
                 stats["known_departure_rows"] = stats.get("known_departure_rows", 0) + 1
+                if key in routed:
+                    continue
+                routed.add(key)
+                ctx.finding(key, msg, {"kind": "real", "case": dict(case),
+                                       "minimal_replay": {FINDING_KEY: MINIMAL_FINDING, FINDING2_KEY: MINIMAL_FINDING2}.get(key, MINIMAL_FINDING4)})
                 continue
             r = rels.setdefault(name, {"n": 0, "max": 0.0})
             r["n"] += 1
@@ -810,7 +835,11 @@ def run(ctx):
                        "iterations 0/1/3/60 (three-root search on/off); every output (V_m, b_sum, a_aa_sum, x_i, pr_p, pr_phi, pr_si_f) "
                        "compared with the Lean Float model at 1e-10; non-trivial = not the early return. (b) real runs: fixed-volume, "
                        "fixed-pressure, -equilibrate, ideal (wateq4f.dat) and EQUILIBRIUM_PHASES gases over random T, P, composition, "
-                       "brine strength; non-trivial = run completed and at least one relation of the property was evaluated.")
+                       "brine strength, "
+                       "inputs with their own GAS_BINARY_PARAMETERS / PHASES critical constants, phases that start empty, mixtures of up to 6 gases, "
+                       "histories of 2-4 simulations on one instance (redefinition, SAVE/USE, EQUILIBRIUM_PHASES after a gas phase, reaction steps); "
+                       "non-trivial = run completed and at least one relation of the property was evaluated. (c) gate constants re-read from model.cpp "
+                       "and compared with the Lean gate functions at 800 probe points.")
     if _PENDING and not ctx.violations:
         ctx.violation(_PENDING[0][0], _PENDING[0][1], found_input=False)
     if not ok and not ctx.violations:
@@ -885,15 +914,23 @@ MANIFEST = dict(
          "binaryFactor_symm_of_check (the run-time test symmetricTab, evaluated by pmodel on the map read back from the engine on "
          "every run, discharges the symmetry hypothesis), "
          "doubleLoop_spec / fixedV_doubled_vm / fixedV_consistent (the numerical fixed-volume path and the algebra of the known "
-         "departure). Correspondence: Phreeqc::calc_PR(phase_ptrs,P,TK,V_m) and the no-argument calc_PR() of gases.cpp called through "
+         "departure); fixedV_moles_total, fixedV_common_ratio (structure of every fixed-volume PR state: internal V_m = r*V/n, p_soln_i = "
+         "r*x_i*P), fixedV_fixed_point_eos (at a fixed point of the V_m iteration the reported P,V,T,n satisfy the EOS, sum p = P, shares), "
+         "damp_distance, ideal_gate_identity, gate_does_not_bound_eos (what the 0.001 atm absolute pressure test of residuals does and does "
+         "not guarantee), volume_mode_real, pOfVm_cases. Correspondence: Phreeqc::calc_PR(phase_ptrs,P,TK,V_m) and the no-argument calc_PR() of gases.cpp called through "
          "friend access on real and synthetic databases vs the Float model at 1e-10 (critical constants read back from the engine; "
          "binary parameters taken from an independent reading of the GAS_BINARY_PARAMETERS text of database and input - symmetric, later "
-         "entries override - and the engine's map tied to that reading for both key orders), incl. the three-root search (f_Vm, halve) and the V_m doubling loop. Direct oracle over generated real runs: EOS 1e-4 "
+         "entries override - and the engine's map tied to that reading for both key orders), incl. the three-root search (f_Vm, halve) and the V_m doubling loop. Translator-style tie of the gas rows of the convergence gate (damping ladder, "
+         "pressure test, mb_gases constants re-read from model.cpp every run vs the Lean functions at probe points). Critical constants "
+         "(-T_c -P_c -Omega of PHASES, database and input) read independently from the text (lexical layer of tools/dbparse.py) and the "
+         "engine's phase records tied to that reading. Direct oracle over generated real runs (single runs, inputs with own PHASES / "
+         "GAS_BINARY_PARAMETERS, multi-simulation histories with redefinition, SAVE/USE, EQUILIBRIUM_PHASES after gas phases, 1-6 gases): EOS 1e-4 "
          "outside the three-root region, shares summing to P, phi 1e-6 inside the clamp, fugacity = 10^SI, fixed-pressure existence "
          "(incl. phases that start empty), ideal gas law, gases as EQUILIBRIUM_PHASES.",
     note="Trusted: Lean kernel, harness/ph_gas.cpp (friend access to Phreeqc; hand-made gas unknowns for calc_PR()), libm shared by model "
          "and code, tolerance logic in tools/props/c19.py. Partial: convergence of the Newton solver around the gas equations is not "
          "modelled (only the existence rule and the gate); the Float model is tied by differential check, not proved equal to the real-"
          "number model; runs that end with an error are counted, not judged; rows with both reported and EOS pressure outside "
-         "0.01..1000 atm are outside the property's range. Known finding: fixedV-numerical-negative-PR-pressure.",
+         "0.01..1000 atm are outside the property's range. Known findings: fixedV-numerical-negative-PR-pressure, fixedV-vm-iteration-accepted-early, "
+         "PR_P-returns-stored-component-pressure (each reproduced by a corpus input on every run).",
 )
